@@ -1,10 +1,17 @@
 (* C16 at source level: pin_to_bytes as TRANSLATED FROM src/pin.rs on this run.
    Only statements; every proof is `exact` of a lemma from proofs/steps/. *)
-From WS Require Import lib.Bytes lib.Res lib.StepLoop Consts Steps spec.Pin proofs.steps.Pin.
+From WS Require Import lib.Bytes lib.Res lib.StepLoop Consts Steps spec.Select spec.Pin proofs.steps.Pin.
 Local Open Scope N_scope.
 
 Theorem C16_source_digits : forall pin out, pin < 2 ^ 32 -> length out = 10%nat ->
   tr_pin_to_bytes 11 pin out = Some (digits pin).
 Proof. exact pin_source_digits. Qed.
 
+(* the keypad layout computed by the translated remap_pin_grid is the Lehmer (factorial-base) decoding
+   of seed mod 10! applied to the digits 0..9, for every seed; in particular never a panic *)
+Theorem C16_source_grid : forall seed,
+  tr_pin_remap_pin_grid seed = Some (grid seed) /\ grid seed = select 10 (seed mod fact 10) (iota 10).
+Proof. intro seed. split; [exact (pin_source_grid seed) | reflexivity]. Qed.
+
 Print Assumptions C16_source_digits.
+Print Assumptions C16_source_grid.
